@@ -25,7 +25,10 @@ CONSTANTS
   WriteErrKeepsEntry = FALSE
   AllowFire = FALSE
   FireRegisters = FALSE
+  RFault = TRUE
+  ReadErrEndsCalls = FALSE
+  LoopSurvivesClose = FALSE
   MaxTry = 2
-INVARIANTS TypeOK OwnTransaction FirstAcceptable ChanClosedOnlyAfterOwnDone NoNilDelivery PendingEntriesLive Capacity IdReusable CloseStopsLoop
+INVARIANTS TypeOK OwnTransaction FirstAcceptable ChanClosedOnlyAfterOwnDone NoNilDelivery PendingEntriesLive Capacity IdReusable CloseStopsLoop DoneOnlyByClose
 PROPERTIES RefuseWhilePending Isolation NoTxAfterAccept
 CHECK_DEADLOCK FALSE
